@@ -208,6 +208,9 @@ class Explorer:
                 self.snapshots.add(nm)
         if track_locals:
             self.tracked |= (set(func.locals) - set(func.aliases)) | self.snapshots
+            # module names the function rebinds (`global memo`): part of the state, under their qualified name
+            for gn in getattr(func, "global_names", ()):
+                self.tracked.add("%s.%s" % (func.module.name, gn))
         self.max_states = max_states
         self.follow_implicit_exc = follow_implicit_exc
         self.unknown_tests = []       # tests that evaluated to UNKNOWN (for diagnostics)
